@@ -406,6 +406,16 @@ class Canon:
                 if isinstance(a_, ast.Call) and norm(a_.func) in ("struct.Struct", "Struct") and len(a_.args) == 1 and isinstance(a_.args[0], ast.Constant) and not a_.keywords:
                     # S = struct.Struct(fmt) at module level; S.pack(x) is struct.pack(fmt, x)
                     return self._fold(ast.Call(ast.Attribute(ast.Name("struct", ast.Load()), e.func.attr, ast.Load()), [ast.Constant(a_.args[0].value)] + list(e.args), list(e.keywords)))
+            if isinstance(e.func, ast.Name) and self.assign_of is not None:
+                # _pack_u32 = struct.Struct("<L").pack  /  _U32 = struct.Struct("<L"); _pack_u32 = _U32.pack  at module level:
+                # _pack_u32(x) is struct.pack("<L", x)
+                a_ = self.assign_of(e.func)
+                if isinstance(a_, ast.Attribute) and a_.attr in ("pack", "unpack", "unpack_from", "pack_into", "iter_unpack"):
+                    st_ = a_.value
+                    if isinstance(st_, ast.Name):
+                        st_ = self.assign_of(st_)
+                    if isinstance(st_, ast.Call) and norm(st_.func) in ("struct.Struct", "Struct") and len(st_.args) == 1 and isinstance(st_.args[0], ast.Constant) and not st_.keywords:
+                        return self._fold(ast.Call(ast.Attribute(ast.Name("struct", ast.Load()), a_.attr, ast.Load()), [ast.Constant(st_.args[0].value)] + list(e.args), list(e.keywords)))
             if (ft == "Decimal" or ft.endswith(".Decimal")) and not e.args and not e.keywords:
                 e.args = [ast.Constant(0)]
             if self.callee_of is not None and e.keywords:
